@@ -21,6 +21,7 @@ D6 the shell stamps `conn.weak` from the entry with the same conn_id (default fa
 from .. import dtable, roles
 from ..ctx import CONN, full_slice_element, is_call, is_field, loop_of_element, sname
 from ..expr import show, strip_old, walk
+from .. import folds
 from ..pathcond import PathA, calls_to, field_stores
 
 LEVEL = "other"
@@ -88,6 +89,7 @@ class Tables:
 
         # locals by role (sa/roles.py): the count of connected links, the share of this link, the maps that replace the history
         self.cc = roles.counter(ctx.w, f, "usize", 0, 1, hint="connected_count")
+        self.ctx = ctx
         self.share = None
         for l, loc in enumerate(f.locals):
             if loc["ty"] != "u32":
@@ -137,6 +139,22 @@ class Tables:
     def atom(self, pred):
         r = self.pa.find(pred)
         return r[0][1] if len(r) == 1 else None
+
+
+def _count_chain(ctx, e):
+    """e is `conns.iter().filter(..).count()` over the whole slice (the filter itself is judged by D4:n-is-connected-count)."""
+    fo = folds.chain_fold(ctx, e)
+    return fo if fo is not None and fo["kind"] == "count" and fo["slice"] == ("param", 2) else None
+
+
+def _tables_is_count(self, e):
+    e = strip_old(e)
+    if e[0] == "var":
+        return self.cc is not None and e[1] == self.cc
+    return _count_chain(self.ctx, e) is not None
+
+
+Tables.is_count = _tables_is_count
 
 
 def _hist(mapname, link, default):
@@ -212,7 +230,7 @@ def _atoms(t):
         if e[0] != "cast":
             return False
         d = strip_old(e[2])
-        return d[0] == "bin" and d[1] == "Div" and d[2] == ("const", k, "u64") and d[3][0] == "cast" and d[3][2][0] == "var" and t.cc is not None and d[3][2][1] == t.cc
+        return d[0] == "bin" and d[1] == "Div" and d[2] == ("const", k, "u64") and d[3][0] == "cast" and t.is_count(d[3][2])
     share = lambda e: e[0] == "var" and t.share is not None and e[1] == t.share
     A["SL"] = t.atom(lambda a: a[0] == "bin" and a[1] == "Lt" and share(a[2]) and thr(a[3], 750))
     A["SE"] = t.atom(lambda a: a[0] == "bin" and a[1] == "Lt" and share(a[2]) and thr(a[3], 250))
@@ -295,8 +313,9 @@ def d1_never_weak_when_disconnected_or_idle(ctx):
     ok = C is not None and t.pa.entails(t.pc, C)
     ctx.chk.ob("D1", "a computed verdict is pushed only for a connected link", ok, "per iteration: %s" % t.pa.show(t.pc)[:200], key="D1:verdict-needs-connected")
     # ... and the bypass test failed (whole-function PC)
-    floor = pa.find(lambda a: a[0] == "bin" and a[1] == "Lt" and a[2][0] == "var" and f.locals[a[2][1]]["ty"] == "f64" and a[3] == ("const", 100000.0, "f64"))
-    none = pa.find(lambda a: a[0] == "bin" and a[1] == "Eq" and ("const", 0, "usize") in (a[2], a[3]) and any(x[0] == "var" and t.cc is not None and x[1] == t.cc for x in (a[2], a[3])))
+    floor = pa.find(lambda a: a[0] == "bin" and a[1] == "Lt" and a[3] == ("const", 100000.0, "f64") and
+                    ((a[2][0] == "var" and f.locals[a[2][1]]["ty"] == "f64") or folds.chain_fold(ctx, a[2]) is not None))
+    none = pa.find(lambda a: a[0] == "bin" and a[1] == "Eq" and ("const", 0, "usize") in (a[2], a[3]) and any(t.is_count(x) for x in (a[2], a[3]) if x[0] != "const"))
     if len(floor) != 1 or len(none) != 1:
         ctx.chk.missing("D1", "classify: bypass test (<f64 sum> < 100000.0, <count of connected links> == 0)", "%d / %d" % (len(floor), len(none)))
     else:
@@ -305,9 +324,19 @@ def d1_never_weak_when_disconnected_or_idle(ctx):
         ctx.chk.ob("D1", "a computed verdict is pushed only when total throughput >= 100 kbit/s and some link is connected", ok, "", key="D1:verdict-needs-floor")
         # the total: sum over connected links of the whole slice of max(bitrate, 0)
         tv = floor[0][0][2]
+        chain = folds.chain_fold(ctx, tv) if tv[0] != "var" else None
+        if chain is not None:
+            # iterator-chain form of the same sum
+            tm = chain["term"]
+            okt = chain["kind"] == "sum" and chain["slice"] == ("param", 2) and folds.filters_equal_field(ctx, chain, CONN, "connected") and \
+                is_call(tm, name_contains="f64") and tm[1].endswith("::max") and tm[2][1] == ("const", 0.0, "f64") and \
+                is_field(tm[2][0], "current_bitrate_bps") and any(x == folds.ELEM for x in walk(tm[2][0]))
+            adds = 1
+            tv = ("var", -1, ())
         defs = dict(((d[0], d[1]), d) for d in pa.fa.defs.get(tv[1], []))
-        okt = len(tv[2]) == 2
-        adds = 0
+        if chain is None:
+            okt = len(tv[2]) == 2
+            adds = 0
         for site in tv[2]:
             d = defs.get(tuple(site))
             if d is None or d[2] != "assign":
@@ -541,7 +570,7 @@ def d4_thresholds(ctx):
             good = v[0] == "cast" and len(cl) == 1 and cl[0][2][1] == ("const", 0.0, "f64") and cl[0][2][2] == ("const", 1000.0, "f64")
             if good:
                 q = strip_old(cl[0][2][0])
-                good = q[0] == "bin" and q[1] == "Div" and q[3][0] == "var" and t.f.locals[q[3][1]]["ty"] == "f64" and _is_total(ctx, t, q[3][1]) and \
+                good = q[0] == "bin" and q[1] == "Div" and _is_total_expr(ctx, t, q[3]) and \
                     strip_old(q[2])[0] == "bin" and strip_old(q[2])[1] == "Mul" and ("const", 1000.0, "f64") in (strip_old(q[2])[2], strip_old(q[2])[3]) and \
                     any(is_field(y, "current_bitrate_bps") and any(z == t.link for z in walk(y)) for y in walk(q[2]))
             ok = ok and good
@@ -573,7 +602,25 @@ def d4_thresholds(ctx):
                     lp = loop_of_element(f, fa, cs[0][1])
                     pa2 = PathA(ctx.w, f, entry=lp["some"]) if lp and not lp["exits"] else None
                     okn = pa2 is not None and pa2.equivalent(pa2.pc_at(d[0], d[1]), pa2.atom(cs[0]))
+    if not ccl:
+        # iterator-chain form: every count the thresholds / the bypass test use is conns.iter().filter(|c| c.connected).count()
+        chains = []
+        for a in list(pa.bdd.vars) + list(ctx.pa(f).bdd.vars):
+            for x in walk(a):
+                fo = _count_chain(ctx, x) if isinstance(x, tuple) and x and x[0] == "call" else None
+                if fo is not None:
+                    chains.append(fo)
+        okn = bool(chains) and all(folds.filters_equal_field(ctx, fo, CONN, "connected") for fo in chains)
     ctx.chk.ob("D4", "n counts exactly the connected links of the whole slice", okn, "", key="D4:n-is-connected-count")
+
+
+def _is_total_expr(ctx, t, e):
+    """e is the total that the bypass test compares with the floor: the accumulator local, or the same iterator chain."""
+    e = strip_old(e)
+    if e[0] == "var":
+        return t.f.locals[e[1]]["ty"] == "f64" and _is_total(ctx, t, e[1])
+    pa0 = ctx.pa(t.f)
+    return folds.chain_fold(ctx, e) is not None and bool(pa0.find(lambda a: a[0] == "bin" and a[1] == "Lt" and strip_old(a[2]) == e and a[3] == ("const", 100000.0, "f64")))
 
 
 def _is_total(ctx, t, l):
